@@ -5,7 +5,7 @@ import os
 import jsonfam
 import verif
 
-NAPI = 24
+NAPI = 28
 
 
 def judge(ctx, cases):
